@@ -196,6 +196,12 @@ def run_case(c, inputs: dict, call=None, extra_ns=None) -> NativeResult:
         nr.exc = e
     if nr.outcome == "return":
         ns["result"] = nr.result
+        for gname, _, _, gnative in c.ghost_outs:
+            try:
+                ns[gname] = eval(gnative, ns)
+            except Exception as e:  # noqa: BLE001
+                nr.failures.append((f"ghost:{gname}", f"witness expression raised {type(e).__name__}: {e}"))
+                return nr
         for i, (n, cc) in enumerate(post_lets):
             ns["__oldeval__"] = make_oldeval(cc)
             ns[n] = eval(cc[0], ns)
